@@ -71,6 +71,7 @@ RecvFindings(s, e) ==
   IN
   \* ---- C03
      F(n = 0, "C03", "empty output slice")
+  \o F(n = 0 /\ IsUnite(s), "C11", "an empty input slice produced an (empty) output slice")
   \o F(n > 0 /\ ~Halted(s) /\ (~Consec(e.elems) \/ a # s.lastId + 1), "C03", "output does not continue the written sequence (loss, duplication or reordering)")
   \o F(n > 0 /\ b > s.nW, "C03", "output contains an element that was never written")
   \o F(~IsUnite(s) /\ n > s.c.J, "C03", "join slice longer than JoinSize")
